@@ -509,6 +509,7 @@ func ruleFatalCloses(r *Run, p *Prog, rule string) {
 		return ""
 	}
 	// every path ends in exit; on paths where the writer is an io.Closer, close precedes exit
+	cl = p.View(cl, "", nil)
 	paths, _ := enumPaths(cl, 1, 1000)
 	okAll := len(paths) > 0
 	sawClose := false
@@ -547,7 +548,7 @@ func ruleFatalCloses(r *Run, p *Prog, rule string) {
 			continue
 		}
 		fwd := false
-		eachInstr(m, func(b *ssa.BasicBlock, i int, in ssa.Instruction) {
+		eachInstr(p.View(m, "", nil), func(b *ssa.BasicBlock, i int, in ssa.Instruction) {
 			if c, ok := in.(*ssa.Call); ok && c.Call.IsInvoke() && c.Call.Method.Name() == "Close" {
 				if ex, ok := c.Call.Value.(*ssa.Extract); ok {
 					if ta, ok := ex.Tuple.(*ssa.TypeAssert); ok && typeIs(ta.AssertedType, "io", "Closer") {
